@@ -36,6 +36,7 @@ type fakeServer struct {
 	wmu     sync.Mutex
 	byArg   map[string]string // when set: the action is chosen by the request's payload, not by arrival order
 	fixed   string            // when set: every request gets this action
+	timeout bool              // a refused dial fails the way a connect timeout does (a genuine net timeout error)
 }
 
 // events of a fail-backup schedule, in the order they happen
@@ -109,6 +110,14 @@ func init() {
 			ctrl.ev <- bkEvent{kind: "dial", srv: s.id, ok: ok}
 		}
 		if !ok {
+			if s.timeout {
+				// what net.Dial returns when Option.ConnectTimeout passes: a *net.OpError wrapping net's timeout error
+				d := net.Dialer{Deadline: time.Now().Add(-time.Second)}
+				_, err := d.Dial("tcp", "127.0.0.1:9")
+				if err != nil {
+					return nil, err
+				}
+			}
 			return nil, errors.New("vsrv: connection refused")
 		}
 		a, b := net.Pipe()
